@@ -172,3 +172,23 @@ func VerifH_c18_hmac() {
 	m, _, _, _, _, _ := build()
 	verifh.CheckMACShared(m)
 }
+
+// Key sizes around the hash block sizes (64 bytes for SHA-1/224/256, 128 for SHA-384/512):
+// RFC 2104 pads keys up to the block size and hashes only longer ones.
+func VerifH_hmac_keysizes() {
+	ht, hf, digest := pickHash("hash")
+	kl := [...]int{16, 63, 64, 65, 127, 128, 129, 200}[verifrt.Choice("klen", 8)]
+	key := verifrt.Bytes("key", kl)
+	params, err := NewParameters(ParametersOpts{KeySizeInBytes: kl, TagSizeInBytes: digest, HashType: ht, Variant: VariantNoPrefix})
+	verifrt.Assert(err == nil, "NewParameters accepts the key size")
+	k, err := NewKey(secretdata.NewBytesFromData(key, insecuresecretdataaccess.Token{}), params, 0)
+	verifrt.Assert(err == nil, "NewKey")
+	m, err := NewMAC(k, internalapi.Token{})
+	verifrt.Assert(err == nil, "NewMAC")
+	msg := verifrt.Bytes("msg", verifrt.Choice("n", 2))
+	tag, err := m.ComputeMAC(msg)
+	verifrt.Assert(err == nil, "ComputeMAC")
+	verifrt.AssertEq(tag, specTag(hf, key, msg, digest, 3, 0), "ComputeMAC == HMAC(key, msg) for keys below, at and above the block size")
+	verifrt.Assert(m.VerifyMAC(tag, msg) == nil, "VerifyMAC accepts")
+	verifrt.Reach("end")
+}
